@@ -20,9 +20,13 @@ from engine import common, tlc, replay
 
 PROP = "C09"
 
-A_SRC = '''class A:
+A_SRC = '''import outmod
+
+
+class A:
     def __init__(self):
         self.attr = 1
+        self.helper = outmod.Out()
 
     def meth(self, x, y=2):
         z = x + y
@@ -75,7 +79,10 @@ def make_fixture(base):
     sib = os.path.join(base, "sibling")
     os.makedirs(os.path.join(root, "pkg"))
     os.makedirs(os.path.join(root, "ign"))
+    os.makedirs(os.path.join(root, "stale", "__pycache__"))
     os.makedirs(sib)
+    with open(os.path.join(root, "stale", "__pycache__", "old.txt"), "w") as f:
+        f.write("left over\n")
     for rel, text in (("a.py", A_SRC), ("b.py", B_SRC), ("pkg/__init__.py", ""), ("pkg/c.py", C_SRC),
                       ("ign/ig.py", IG_SRC)):
         with open(os.path.join(root, rel), "w") as f:
@@ -140,10 +147,10 @@ def token_class(src, off):
     return "space"
 
 
-KINDS = ["rename", "rename_restricted", "inline", "move", "change_signature", "encapsulate_field",
+KINDS = ["rename", "rename_restricted", "inline", "move", "move_method", "change_signature", "encapsulate_field",
          "introduce_factory", "local_to_field", "method_object", "introduce_parameter", "use_function",
          "extract_method", "extract_variable"]
-MODULE_KINDS = ["organize_imports", "expand_star", "froms_to_imports", "relatives_to_absolutes",
+MODULE_KINDS = ["rename_package_onto_existing_dir", "organize_imports", "expand_star", "froms_to_imports", "relatives_to_absolutes",
                 "handle_long_imports", "rename_module", "module_to_package", "restructure", "move_module"]
 
 
@@ -161,6 +168,13 @@ def build_request(project, kind, res, off):
     if kind == "move":
         dest = project.get_resource("b.py") if res.path != "b.py" else project.get_resource("a.py")
         return lambda: move.create_move(project, res, off).get_changes(dest)
+    if kind == "move_method":
+        def req():
+            mover = move.create_move(project, res, off)
+            if isinstance(mover, move.MoveMethod):
+                return mover.get_changes("helper", "moved_meth")
+            return None
+        return req
     if kind == "change_signature":
         return lambda: change_signature.ChangeSignature(project, res, off).get_changes(
             [change_signature.ArgumentNormalizer()])
@@ -191,6 +205,10 @@ def build_request(project, kind, res, off):
         return lambda: org.relatives_to_absolutes(res)
     if kind == "handle_long_imports":
         return lambda: org.handle_long_imports(res)
+    if kind == "rename_package_onto_existing_dir":
+        # the new name already exists as a plain directory: shutil.move puts the package inside it;
+        # whatever rope announces must be what happens
+        return lambda: rename.Rename(project, project.get_resource("pkg")).get_changes("stale")
     if kind == "rename_module":
         return lambda: rename.Rename(project, res).get_changes("zz_mod")
     if kind == "module_to_package":
